@@ -36,6 +36,7 @@ func init() {
 		Build: func(c *Ctx) {
 			for _, cfg := range c.Configs() {
 				c.e9Bytes(cfg)
+				c.ruleShape(cfg)
 				// the field-level mechanisms C05 is anchored in: canonical serialisation and the sign predicate
 				c.ruleFieldLayouts(cfg)
 				c.ruleFieldPredicates(cfg)
@@ -63,6 +64,7 @@ func init() {
 		Build: func(c *Ctx) {
 			for _, cfg := range c.Configs() {
 				c.e9Equal(cfg)
+				c.ruleShape(cfg)
 				c.ruleFieldPredicates(cfg) // field equality on fully reduced encodings (anchor field/fe.go Equal)
 				if g := c.Guards(cfg); g != nil {
 					c.addAll(keep(g.GInit(), func(o report.Obligation) bool { return keyHasFunc(o, nameSet([]string{"(*Point).Equal"})) }))
